@@ -21,7 +21,7 @@ Chk(b) == b = TRUE      \* evaluate as a plain expression (TLC would split an ac
 DevOn(name) == ("VERIF_DEV_" \o name) \in DOMAIN IOEnv
 
 UIdle == [has |-> FALSE, text |-> <<>>, ok |-> FALSE, cps |-> <<>>, beyond |-> FALSE,
-          alive |-> FALSE, fin |-> FALSE, st |-> Utf8Init, fed |-> <<>>, got |-> <<>>]
+          alive |-> FALSE, fin |-> FALSE, st |-> Utf8Init, fed |-> <<>>, got |-> <<>>, cb |-> TRUE]
 IsPrefix(p, s) == IF Len(p) <= Len(s) THEN SubSeq(s, 1, Len(p)) = p ELSE FALSE
 
 -----------------------------------------------------------------------------
@@ -110,7 +110,8 @@ TU8Whole ==
 TU8Begin ==
     /\ Ev.e = "U8Begin" /\ u.has
     /\ Ev.how = "keep" => u.fin
-    /\ u' = [u EXCEPT !.alive = TRUE, !.fin = FALSE, !.st = Utf8Init, !.fed = <<>>, !.got = <<>>]
+    /\ Ev.how # "new" => (Ev.cb = 1) = u.cb                               \* the callback is fixed at creation
+    /\ u' = [u EXCEPT !.alive = TRUE, !.fin = FALSE, !.st = Utf8Init, !.fed = <<>>, !.got = <<>>, !.cb = (Ev.cb = 1)]
     /\ UNCHANGED path
 TU8Update ==
     /\ Ev.e = "U8Update" /\ u.alive
@@ -118,14 +119,15 @@ TU8Update ==
            fed == u.fed \o Ev.inp
            got == u.got \o Ev.cps
        IN /\ Chk(IsPrefix(fed, u.text))                                   \* driver obligation
-          /\ Chk(IF ~u.beyond THEN (Ev.rc = 0) = a.ok /\ Ev.cps = a.cps
+          /\ Chk(IF ~u.cb THEN Ev.cps = <<>> /\ (IF ~u.beyond THEN (Ev.rc = 0) = a.ok ELSE (Ev.rc # 0 => ~u.ok))
+                 ELSE IF ~u.beyond THEN (Ev.rc = 0) = a.ok /\ Ev.cps = a.cps
                  ELSE IsPrefix(got, u.cps) /\ (Ev.rc # 0 => (~u.ok /\ got = u.cps)))
           /\ u' = [u EXCEPT !.alive = (Ev.rc = 0), !.st = a.st, !.fed = fed, !.got = got]
     /\ UNCHANGED path
 TU8Final ==
     /\ Ev.e = "U8Final" /\ u.alive
-    /\ Chk(IF ~u.beyond /\ u.fed = u.text THEN (Ev.rc = 0) = (u.st.rem = 0) /\ (Ev.rc = 0) = u.ok /\ u.got = u.cps
-           ELSE IF u.fed = u.text THEN (Ev.rc = 0) = u.ok /\ u.got = u.cps
+    /\ Chk(IF ~u.beyond /\ u.fed = u.text THEN (Ev.rc = 0) = (u.st.rem = 0) /\ (Ev.rc = 0) = u.ok /\ (u.cb => u.got = u.cps)
+           ELSE IF u.fed = u.text THEN (Ev.rc = 0) = u.ok /\ (u.cb => u.got = u.cps)
            ELSE (Ev.rc = 0) = (u.st.rem = 0))                             \* finalize in the middle of a text
     /\ Chk(Ev.rc # 0 => Ev.err = "AWS_ERROR_INVALID_UTF8")                \* documented in encoding.h
     /\ u' = [u EXCEPT !.alive = FALSE, !.fin = TRUE]
